@@ -108,6 +108,7 @@ CHECKS = {
             dict(STRVALS, entries=["H04SetFrame", "H20SetTypeConfusion", "H20SetDeep"], bounds_quick={"maxlen": 5, "deeplen": 3}, bounds_thorough={"maxlen": 6, "deeplen": 5}),
             dict(REPOPKG, entries=["H18Index"], bounds_quick={"entries": 2, "shapes": 6, "maxdigit": 3}, bounds_thorough={"entries": 3, "shapes": 6, "maxdigit": 9}),
             dict(pkg="./pkg/storage/driver", files=["pkg/storage/driver/h_c10_backends.go"], entries=["H20Corrupt"]),
+            dict(pkg="./pkg/chart/v2/util", files=["pkg/chart/v2/util/h_c20_import.go"], entries=["H20Import"], bounds_quick={"entries": 1}, bounds_thorough={"entries": 2}),
         ],
         "bounds": {},
         "assumptions": [],
